@@ -285,13 +285,22 @@ static int inject_reject(hist_t *h)
         logent_t *e = &h->log[h->nlog < MAXLOG ? h->nlog++ : MAXLOG - 1];
         *e = (logent_t) { 0, si, flags, -2, 0, 1, len };
         int inflight_before = s->st == ST_INFLIGHT;
-        if (do_submit(h, si, dummy, len, flags, &ret, &rc)) { report_fault(h, "rejected submit"); return -1; }
+        /* out-of-range flags are refused before the buffer is looked at: a fifth of those calls carry no buffer at all */
+        const void *rbuf_ = (kind == 0 && rng_below(r, 5) == 0) ? NULL : dummy;
+        if (!rbuf_) out_count("rejects_invalid_flags_null_buffer", 1);
+        if (do_submit(h, si, rbuf_, len, flags, &ret, &rc)) { report_fault(h, "rejected submit"); return -1; }
         h->res->ops++; h->res->rejects++; h->any_reject = 1; s->had_reject = 1;
         e->ret = ret ? slot_of(h, ret) : -1; e->rc = rc;
         int er = CTX_I32(s->ctx, a->off_error);
         trace(h, 0xbad00000u | (uint32_t) (er & 0xff) << 8 | (uint32_t) (rc & 0xff));
         feat(mix64(0x7e1ec7, mix64((uint64_t) exp_set, mix64((uint64_t) h->ninflight, (uint64_t) s->st))));
         out_count(exp_set & 1 ? "rejects_invalid_flags" : exp_set & 2 ? "rejects_already_processing" : "rejects_already_completed", 1);
+        if (!rbuf_ && c->route == R_ISAL && ret == NULL && rc == ISAL_CRYPTO_ERR_NULL_SRC) {
+                /* two argument faults in one call: the isal_ wrapper may report the missing buffer instead (its documented code, C16); nothing may have changed */
+                out_count("rejects_double_fault_reported_as_null_src", 1);
+                compare_snapshot(h, si);
+                return 0;
+        }
         if (ret != s->ctx) { viol(h, "C11", "reject-not-handed-back", "invalid submit (flags %d) on c%d in state %d returned %p instead of the same context", flags, si, s->st, ret); return -1; }
         int ok = ((exp_set & 1) && er == ISAL_HASH_CTX_ERROR_INVALID_FLAGS) || ((exp_set & 2) && er == ISAL_HASH_CTX_ERROR_ALREADY_PROCESSING) ||
                  ((exp_set & 4) && er == ISAL_HASH_CTX_ERROR_ALREADY_COMPLETED);
@@ -472,6 +481,22 @@ static void run_history(const hcfg_t *cfg, uint64_t case_seed, hres_t *res, uint
         int bad = 0;
         for (int step = 0; step < nops && !bad; step++) {
                 uint32_t w = rng_below(r, 100);
+                if (h->ninflight > 0 && rng_below(r, 150) == 0) {
+                        /* the application gives up on the jobs in flight: the manager is initialised again and every abandoned context is
+                         * re-initialised with isal_hash_ctx_init (all the API offers); they must be usable for new messages like fresh ones */
+                        LABEL("%s %s %s mgr re-init with %d jobs in flight", a->name, cfg->f->name, route_name[cfg->route], h->ninflight);
+                        int rrc = 0;
+                        if (cfg->route == R_FAM) cfg->f->init(h->mgr); else if (cfg->route == R_LEGACY) a->l_init(h->mgr); else rrc = a->i_init(h->mgr);
+                        cur_label[0] = 0;
+                        if (rrc) viol(h, "C06", "init-failed", "isal mgr init returned %d", rrc);
+                        for (int i = 0; i < h->nslot; i++) if (h->s[i].st == ST_INFLIGHT) {
+                                a->ctx_init(h->s[i].ctx); *(uintptr_t *) (h->s[i].ctx + a->off_user) = h->s[i].tag;
+                                h->s[i].st = ST_FRESH; free_segs(&h->s[i]);
+                        }
+                        h->ninflight = 0;
+                        out_count("manager_reinits_with_jobs_in_flight", 1);
+                        continue;
+                }
                 if (w < (uint32_t) cfg->inject_pct) { if (inject_reject(h) < 0) bad = 1; continue; }
                 w = rng_below(r, 100);
                 if (w < 12) { if (one_flush(h, 0) < 0) bad = 1; continue; }
@@ -522,6 +547,7 @@ static disp_t disp[5][3];
 static void force_family(const halg_t *a, const hfam_t *f)
 {
         int ai = (int) (a - halgs);
+        if (g_noarch) return;   /* the entry points are plain C functions that call the base code */
         if (vcpu_set(f->vcpu)) out_err("unknown vcpu %s", f->vcpu);
         for (int k = 0; k < 3; k++) {
                 if (!disp[ai][k].slot && disp_bind(&disp[ai][k], a->entry[k])) out_err("cannot locate dispatch slot of %s entry %d", a->name, k);
